@@ -645,7 +645,8 @@ func runCodec(e *vlib.Env, res *vlib.Result, kind string, gen func(r *vlib.Rand)
 			break
 		}
 		// the same message into targets that already carry data: reused between calls, pre-populated
-		if !tb.run(e.R, res, m, msg, v, fail) {
+		// (large values - 100 KiB and more - only make the plain round trip and the held-message round trip)
+		if !v.large && !tb.run(e.R, res, m, msg, v, fail) {
 			break
 		}
 		if len(samples) < 3 && !v.zero {
